@@ -179,16 +179,43 @@ Definition hget (name : bytes) (h : header_map) : bytes :=
 Definition must_be_signed (lk : bytes) : bool :=
   bytes_eqb lk B"content-md5" || is_prefix B"x-amz-" lk.
 
+(* canonicalHeaderValue (commit bc241f9): TrimSpace, then  for Contains(v, "  ") { v = ReplaceAll(v, "  ", " ") } *)
+Fixpoint has_double_space (s : bytes) : bool :=
+  match s with
+  | a :: t => match t with
+              | b :: _ => (beqb a " "%byte && beqb b " "%byte) || has_double_space t
+              | [] => false
+              end
+  | [] => false
+  end.
+(* one strings.ReplaceAll(v, "  ", " "): non-overlapping matches, left to right *)
+Fixpoint replace_double_space (s : bytes) : bytes :=
+  match s with
+  | [] => []
+  | a :: t => match t with
+              | b :: t' => if beqb a " "%byte && beqb b " "%byte then " "%byte :: replace_double_space t'
+                           else a :: replace_double_space t
+              | [] => [a]
+              end
+  end.
+Fixpoint collapse_loop (fuel : nat) (s : bytes) : bytes :=
+  match fuel with
+  | O => s
+  | S f => if has_double_space s then collapse_loop f (replace_double_space s) else s
+  end.
+Definition canonical_header_value (v : bytes) : bytes :=
+  let t := trim_space v in collapse_loop (length t) t.
+
 Fixpoint signed_pairs (h : header_map) (include : list bytes) : list (bytes * bytes) :=
   match h with
   | [] => []
   | (k, vs) :: h' =>
       let lk := to_lower k in
-      if mem_bytes lk include then (lk, trim_space (join B"," vs)) :: signed_pairs h' include
+      if mem_bytes lk include then (lk, join B"," (map canonical_header_value vs)) :: signed_pairs h' include
       else signed_pairs h' include
   end.
 Definition collect_signed_headers (host : bytes) (h : header_map) (include : list bytes) : list (bytes * bytes) :=
-  isort key_leb ((B"host", trim_space host) :: signed_pairs h include).
+  isort key_leb ((B"host", canonical_header_value host) :: signed_pairs h include).
 Definition canonical_headers (hs : list (bytes * bytes)) : bytes :=
   flat_map (fun p => fst p ++ ":"%byte :: snd p ++ [x0a]) hs.
 Definition signed_headers_line (hs : list (bytes * bytes)) : bytes := join B";" (map fst hs).
